@@ -26,6 +26,7 @@ def body(ctx):
     close_impl(ctx, ex, prog, viol)
     close_then_eof(ctx, prog, viol)
     eof_before_closeok(ctx, prog)
+    loop_done(ctx, prog)
     VAL.run()
     done = set()
     for v in viol[:8]:
@@ -96,6 +97,24 @@ fn verif_replay_c08_seal() {
     if i.outbuf.len() != after { bad.push("heartbeat-appended-after-seal"); }
     i.push_method(0, ConnM::CloseOk(amq_protocol::protocol::connection::CloseOk {}));
     if i.outbuf.len() != after { bad.push("method-appended-after-seal"); }
+    // the Close has been written out completely: the buffer is empty, still sealed, and stays empty
+    struct Sink;
+    impl std::io::Read for Sink { fn read(&mut self, _: &mut [u8]) -> std::io::Result<usize> { Err(std::io::Error::new(std::io::ErrorKind::WouldBlock, "wb")) } }
+    impl std::io::Write for Sink { fn write(&mut self, b: &[u8]) -> std::io::Result<usize> { Ok(b.len()) } fn flush(&mut self) -> std::io::Result<()> { Ok(()) } }
+    impl mio::Evented for Sink {
+        fn register(&self, _: &mio::Poll, _: mio::Token, _: mio::Ready, _: mio::PollOpt) -> std::io::Result<()> { Ok(()) }
+        fn reregister(&self, _: &mio::Poll, _: mio::Token, _: mio::Ready, _: mio::PollOpt) -> std::io::Result<()> { Ok(()) }
+        fn deregister(&self, _: &mio::Poll) -> std::io::Result<()> { Ok(()) }
+    }
+    impl crate::IoStream for Sink {}
+    i.write_to_stream(&mut Sink).unwrap();
+    if i.outbuf.len() != 0 || !i.are_writes_sealed() { bad.push("not-empty-and-sealed-after-flush"); }
+    let mut later2 = crate::serialize::OutputBuffer::empty();
+    later2.push_heartbeat();
+    i.process_channel_message(3, IoLoopMessage::Send(later2)).unwrap();
+    if i.outbuf.len() != 0 { bad.push("send-appended-after-seal-and-flush"); }
+    i.outbuf.push_heartbeat();
+    if i.outbuf.len() != 0 { bad.push("heartbeat-appended-after-seal-and-flush"); }
     if bad.is_empty() { println!("VERIF-REPLAY-OK"); } else { println!("VERIF-REPLAY-VIOLATION seal-discipline {}", bad.join(",")); }
 }
 '''
@@ -419,6 +438,66 @@ def server_close(ctx, ex, prog, viol):
     ctx.extra['server_close_paths'] = n
 
 
+def loop_done(ctx, prog):
+    """when the poll loop may end: never while Steady; after either side's close or a client exception only once everything queued - the
+    Close / CloseOk included - has been written (a loop that ends earlier drops the socket with the last frames unsent)"""
+    ex = io_executor(ctx, prog)
+    f_done = prog.method('IoLoop', 'is_connection_done')
+    io_names = prog.types.fields('IoLoop')
+    SV = prog.types.variants('ConnectionState')
+    bad = []
+    for stn in ('Steady', 'ServerClosing', 'ClientException', 'ClientClosed'):
+        st, w = build_steady(prog, [], sealed=(stn != 'Steady'))
+        if stn != 'Steady':
+            pay = {SV.index(stn): Agg({0: Agg({}, 'amq_protocol::protocol::connection::Close', 'the.close')})} if stn == 'ServerClosing' else {}
+            w.state.value = Enum(SV.index(stn), pay, 'ConnectionState')
+        io = Agg({io_names.index('inner'): w.inner.value}, 'IoLoop', 'ioloop')
+        for (s3, r3) in ex.run(st, f_done, [Ref(Cell(io, 'ioloop')), Ref(w.state)]):
+            L = s3.roots['w'].outbuf.len
+            if isinstance(r3, Panic):
+                c3 = z3.BoolVal(False)
+            elif stn == 'Steady':
+                c3 = z3.Not(r3.b)
+            elif stn == 'ClientClosed':
+                c3 = r3.b
+            else:
+                c3 = r3.b == (L == 0)
+            m3 = ctx.decide(f"{ctx.pid.lower()}.loop-done[{stn}]", s3.pc, c3, group='the loop ends only after a close handshake or client exception, and then only once the output buffer (Close / CloseOk included) is flushed')
+            if m3 is not None:
+                bad.append((stn, str(r3)[:60]))
+    if bad:
+        ctx.report('loop-ends-with-data-queued', f"is_connection_done: {bad[0]}", {'solver_counterexamples': [str(b_) for b_ in bad]}, DONE_TEST, inject_into='src/io_loop/mod.rs', profiles=('dev',), panic_is_violation=True)
+
+
+DONE_TEST = r'''
+use super::*;
+use super::connection_state::ConnectionState;
+#[test]
+fn verif_replay_loop_done() {
+    let mut bad: Vec<String> = Vec::new();
+    for queued in [false, true].iter() {
+        for which in 0..4 {
+            let mut io = IoLoop::new(crate::ConnectionTuning::default()).unwrap();
+            io.inner.outbuf.clear();
+            let (ch0_slot, _h) = Channel0Slot::new(4);
+            let state = match which {
+                0 => ConnectionState::Steady(ch0_slot),
+                1 => ConnectionState::ServerClosing(amq_protocol::protocol::connection::Close { reply_code: 320, reply_text: "x".into(), class_id: 0, method_id: 0 }),
+                2 => ConnectionState::ClientException,
+                _ => ConnectionState::ClientClosed,
+            };
+            if *queued { io.inner.outbuf.push_heartbeat(); }
+            if which != 0 { io.inner.seal_writes(); }
+            let want = match which { 0 => false, 3 => true, _ => !*queued };
+            let got = io.is_connection_done(&state);
+            if got != want { bad.push(format!("state={}:queued={}:done={}", which, queued, got)); }
+        }
+    }
+    if bad.is_empty() { println!("VERIF-REPLAY-OK"); } else { println!("VERIF-REPLAY-VIOLATION loop-ends-with-data-queued {}", bad.join(";")); }
+}
+'''
+
+
 def client_close_ok(ctx, ex, prog, viol):
     n = 0
     for nc, pf in ((0, 0), (2, 0), (1, 1)):
@@ -481,7 +560,24 @@ def sealing(ctx, ex, prog, viol):
         if m is not None:
             viol.append(('seal', ctx.explain(m, c)))
             continue
-        # anything submitted later is dropped
+        # anything submitted later is dropped - also once the Close itself has been written out and the buffer is empty again
+        for flushed in (False, True):
+            s1f = s1.fork()
+            w1f = s1f.roots['w']
+            if flushed:
+                w1f.outbuf.abs, w1f.outbuf.len = w1f.outbuf.abs + w1f.outbuf.len, b64(0)
+            lenf = w1f.outbuf.len
+            nit = len(w1f.outbuf.items)
+            lf = sym('later2.len', BV64)
+            laterf = Agg({0: ByteVec('later2', lf, [{'kind': 'later', 'pos': b64(0), 'len': lf}])}, 'OutputBuffer')
+            msgf = Enum(MV.index('Send'), {MV.index('Send'): Agg({0: laterf})}, 'IoLoopMessage')
+            s1f.pc.append(z3.And(z3.UGE(lf, 8), z3.ULE(lf, 1 << 20)))
+            for (s2f, r2f) in ex.run(s1f, f_msg, [Ref(w1f.inner), Int(z3.BitVec('later2.chan', 16), 16), msgf]):
+                w2f = s2f.roots['w']
+                cf_ = [z3.BoolVal(err_name(prog, r2f) == 'Ok' and len(w2f.outbuf.items) == nit), w2f.outbuf.len == lenf, sealed_flag(prog, w2f)]
+                m = ctx.decide(f"c08.seal.later-send-dropped[{'flushed' if flushed else 'queued'}]", s2f.pc, z3.And(*cf_), group='after sealing, later submissions are discarded (nothing follows the Close)')
+                if m is not None:
+                    viol.append(('later-send', flushed, ctx.explain(m, cf_)))
         l2 = sym('later.len', BV64)
         later = Agg({0: ByteVec('later', l2, [{'kind': 'later', 'pos': b64(0), 'len': l2}])}, 'OutputBuffer')
         msg2 = Enum(MV.index('Send'), {MV.index('Send'): Agg({0: later})}, 'IoLoopMessage')
